@@ -172,6 +172,9 @@ func (u *Unit) freshName(prefix string) string {
 func (u *Unit) fresh(prefix, srt string) string {
 	if u.pure > 0 {
 		u.pureFail = true
+		if os.Getenv("GOWP_DEBUG_PURE") != "" {
+			fmt.Fprintln(os.Stderr, "pure evaluation needs a fresh value:", prefix, srt)
+		}
 	}
 	n := u.freshName(prefix)
 	u.reg.declConst(n, srt)
@@ -2686,8 +2689,10 @@ func builtinGhostSort(name string) string {
 		return "(Array Int Any)"
 	case "$lastjson":
 		return sStr
-	case "$now", "$alloc":
+	case "$now", "$alloc", "$lastread":
 		return sInt
+	case "$lastreaderr":
+		return sBool
 	}
 	return ""
 }
